@@ -12,6 +12,8 @@ import (
 	"sort"
 	"strings"
 	"sync"
+	"sync/atomic"
+	"time"
 
 	"verif/engine/enum"
 	"verif/engine/report"
@@ -452,7 +454,23 @@ func main() {
 		total[n] = &tally{outcomes: map[string]int64{}}
 	}
 
-	enum.Parallel(len(shards), r.OutOfTime, func(i int) {
+	// own time limit inside the tier budgets (quick 60 s, thorough 10 min including the build):
+	// when it trips the run ends as exhaustive:false, never as a failure
+	started := time.Now()
+	limit := 45 * time.Second
+	if r.Thorough() {
+		limit = 9 * time.Minute
+	}
+	var cut atomic.Bool
+	var shardsDone atomic.Int64
+	stop := func() bool {
+		if r.OutOfTime() || time.Since(started) > limit {
+			cut.Store(true)
+			return true
+		}
+		return false
+	}
+	enum.Parallel(len(shards), stop, func(i int) {
 		sh := shards[(i+rot)%len(shards)]
 		rc := rtCache{}
 		t := tally{outcomes: map[string]int64{}}
@@ -514,6 +532,7 @@ func main() {
 		}
 		r.Eval(t.evals)
 		r.Nontrivial(t.nontrivial)
+		shardsDone.Add(1)
 		mu.Lock()
 		tt := total[sh.sweep]
 		tt.evals += t.evals
@@ -525,6 +544,7 @@ func main() {
 		mu.Unlock()
 	})
 
+	r.Set("shards", map[string]int64{"total": int64(len(shards)), "completed": shardsDone.Load()})
 	all := map[string]int64{}
 	for name, t := range total {
 		r.Set("sweep_"+name, map[string]int64{"cases": t.cases, "executions": t.evals, "nontrivial": t.nontrivial})
@@ -567,5 +587,5 @@ func main() {
 		"Go's map iteration order over the path parameters is not owned: each multi-parameter case is executed in every setting order and repeated, and the expectation is order independent (simultaneous substitution)",
 		"static text of base paths and patterns contains no '%', no '.'/'..' segments, no empty segments and no fragment",
 	)
-	r.Finish("sweep P: every base path x every pattern x every listed parameter map x 2 caller query sets; sweep Q: every base path x every pattern x 1-4 injection-minded parameter maps x every other caller query set; sweep S: every ordered pair of scheme lists (sequences of length 0-3 over http, https, ws, wss) x 3 hosts x 2 base paths x 2 patterns x 2 query sets; sweep X: every base path x every pattern x the same few parameter maps x 6 caller query sets x 7x7 scheme lists on a fourth host. The sweeps are disjoint by construction and no sweep repeats a case, so cases are distinct; an evaluation is one CreateHttpRequest call on the real client (a case with k>=2 parameters is executed k! x repeat times). Non-trivial = a placeholder of the pattern received a value that needs escaping (or is empty, '.' or '..'), or a query name is set at two or more of the three levels, or a scheme list with several entries is offered", true)
+	r.Finish("sweep P: every base path x every pattern x every listed parameter map x 2 caller query sets; sweep Q: every base path x every pattern x 1-4 injection-minded parameter maps x every other caller query set; sweep S: every ordered pair of scheme lists (sequences of length 0-3 over http, https, ws, wss) x 3 hosts x 2 base paths x 2 patterns x 2 query sets; sweep X: every base path x every pattern x the same few parameter maps x 6 caller query sets x 7x7 scheme lists on a fourth host. The sweeps are disjoint by construction and no sweep repeats a case, so cases are distinct; an evaluation is one CreateHttpRequest call on the real client (a case with k>=2 parameters is executed k! x repeat times). Non-trivial = a placeholder of the pattern received a value that needs escaping (or is empty, '.' or '..'), or a query name is set at two or more of the three levels, or a scheme list with several entries is offered", !cut.Load())
 }
